@@ -1,7 +1,7 @@
 """C06 - a ResendRequest is answered completely, in order and without side effects.
 
 Theorems (Props/C06.v) are about coq/theories/Fix/Resend.v, a message-level model of
-AsyncFIXConnection._process_resend and its call site in _process_message (repairs D12 and R3c) with what they call (Journaler.recover_messages / set_seq_num /
+AsyncFIXConnection._process_resend and its call site in _process_message (repairs D12, R3c, R5a, R5b) with what they call (Journaler.recover_messages / set_seq_num /
 persist_msg, send_msg, the codec's sequence-number selection).  This harness ties the model to the
 code: a real AsyncFIXDummyServer over a real SQLite Journaler (no sockets: fake writer, dummy
 reader) sends a journal of messages, optionally answers earlier ResendRequests and
@@ -542,14 +542,9 @@ def classify(case, obs):
         out.append("C06-end-beyond-64-bits")
     hi = INT64_MAX if e == 0 else e
     declined = set(obs["declined"])
-    keys = {r[0] for r in pre["rows"]}
     replayed = [r for r in pre["rows"] if b <= r[0] <= hi and r[1] not in SESSION_TYPES and r[0] not in declined]
-    if e != 0 and e < nout - 1 and b < nout:
-        out.append("C06-bounded-end")
     if any(t in ("43", "122") for r in replayed for t, _ in r[3]):
         out.append("C06-row-carries-possdup-tags")
-    if any(r[0] > b and (r[0] - 1) not in keys for r in replayed):
-        out.append("C06-hole-before-replayed")
     return out
 
 
@@ -722,9 +717,7 @@ def evaluate(ctx, cases, use_model=True):
 
 # the witnesses of the *_refuted theorems of Props/C06.v, in the harness's case syntax
 WITNESSES = {
-    "C06_bounded_end_refuted": ({"slots": ["A", "D", "D", "D"], "begin": "2", "end": "2", "state": "ACTIVE"}, "C06-bounded-end"),
     "C06_end_beyond_64_refuted": ({"slots": ["A", "D"], "begin": "2", "end": "9223372036854775808", "state": "ACTIVE"}, "C06-end-beyond-64-bits"),
-    "C06_hole_refuted": ({"slots": ["A", "D", "Dh", "D", "D"], "begin": "2", "end": "0", "state": "ACTIVE"}, "C06-hole-before-replayed"),
     "C06_possdup_tag_refuted": ({"slots": ["A", "Dp"], "begin": "2", "end": "0", "state": "ACTIVE"}, "C06-row-carries-possdup-tags"),
 }
 # positive witnesses: must satisfy the property on the implementation
@@ -734,6 +727,11 @@ POSITIVE = {
     "C06_unanswerable_requests_ok/beyond": {"slots": ["A", "D"], "begin": "5", "end": "0", "state": "ACTIVE"},
     "C06_unanswerable_requests_ok/not-a-number": {"slots": ["A", "D"], "begin": "x", "end": "0", "state": "ACTIVE"},
     "C06_unanswerable_requests_ok/tag-absent": {"slots": ["A", "D"], "begin": None, "end": "0", "state": "ACTIVE"},
+    "C06_bounded_end_ok/1": {"slots": ["A", "D", "D", "D"], "begin": "2", "end": "2", "state": "ACTIVE"},
+    "C06_bounded_end_ok/2": {"slots": ["A", "D", "0", "D"], "begin": "2", "end": "3", "state": "ACTIVE"},
+    "C06_hole_ok": {"slots": ["A", "D", "Dh", "D", "D"], "begin": "2", "end": "0", "state": "ACTIVE"},
+    "C06_holes_and_bounded_end_ok/1": {"slots": ["A", "D", "Dh", "Dh", "D", "0", "Dh", "Dh", "Dd", "D", "Dh", "Dh"], "begin": "2", "end": "10", "state": "ACTIVE"},
+    "C06_holes_and_bounded_end_ok/2": {"slots": ["A", "D", "Dh", "Dh", "D", "0", "Dh", "Dh", "Dd", "D", "Dh", "Dh"], "begin": "3", "end": "8", "state": "ACTIVE"},
 }
 
 
